@@ -36,7 +36,7 @@ func vhC16Levels(str []rune) []int { return make([]int, len(str)) }
 
 const vhC16HyphenAdv = 300
 
-func vhC16GlyphIndex(sf *font.SFNT, r rune) uint16  { return uint16(r) }
+func vhC16GlyphIndex(sf *font.SFNT, r rune) uint16     { return uint16(r) }
 func vhC16GlyphAdvance(sf *font.SFNT, g uint16) uint16 { return vhC16HyphenAdv }
 
 func vhC16Script(r rune) text.Script {
